@@ -102,16 +102,36 @@ static int at_rest(slot_t *s) {
 	return !(st & (DISPATCH_QUEUE_DRAIN_OWNER_MASK | DISPATCH_QUEUE_ENQUEUED | DISPATCH_QUEUE_ENQUEUED_ON_MGR))
 			&& atomic_load(&s->inhandler) == 0;
 }
-// wait (bounded) until cond; returns 1 when it became true
-static int wait_delivered(slot_t *s, int want_sentinel) {
-	for (int i = 0; i < 12000; i++) { // >= 12 s
-		if (rd_pending(s) == 0 && at_rest(s) && (!want_sentinel || atomic_load(&s->saw_sentinel))) {
+// "stuck" is decided by lack of progress, not by elapsed time (a loaded machine must not look like a lost wakeup): the wait
+// gives up only after STUCK_S seconds in which nothing moved -- the recorder's global ticket (every atomic operation of the
+// library on the tracked words and every mark takes one), dq_state, ds_pending_data, the handler counters.  LIVE_S bounds a
+// source that keeps moving without ever coming to rest (reported the same way; never seen).
+#define STUCK_S 12.0
+#define LIVE_S 600.0
+static double now_s(void) { struct timespec ts; clock_gettime(CLOCK_MONOTONIC, &ts); return (double)ts.tv_sec + 1e-9 * (double)ts.tv_nsec; }
+typedef struct { uint64_t seq, st, pe; long calls; int inh; } prog_t;
+static prog_t progress(slot_t *s) {
+	prog_t p = { atomic_load(&dv_seq), rd_state(s), rd_pending(s), atomic_load(&s->calls), atomic_load(&s->inhandler) };
+	return p;
+}
+static int same_prog(prog_t a, prog_t b) { return a.seq == b.seq && a.st == b.st && a.pe == b.pe && a.calls == b.calls && a.inh == b.inh; }
+static int installed_at_rest(slot_t *s) { return s->ds->ds_is_installed && at_rest(s) && !(rd_state(s) >> 55); }
+static int delivered(slot_t *s, int want_sentinel) {
+	return rd_pending(s) == 0 && at_rest(s) && (!want_sentinel || atomic_load(&s->saw_sentinel));
+}
+// mode 0: everything delivered; 1: ... and the sentinel seen; 2: activated, installed and at rest.  returns 1 when it became true
+static int wait_progress(slot_t *s, int mode) {
+	double t0 = now_s(), tlast = t0; prog_t last = progress(s);
+	for (;;) {
+		if (mode == 2 ? installed_at_rest(s) : delivered(s, mode)) {
 			usleep(200);
-			if (rd_pending(s) == 0 && at_rest(s)) return 1;
+			if (mode == 2 ? installed_at_rest(s) : (rd_pending(s) == 0 && at_rest(s))) return 1;
 		}
 		usleep(1000);
+		prog_t p = progress(s); double t = now_s();
+		if (!same_prog(p, last)) { last = p; tlast = t; }
+		if (t - tlast > STUCK_S || t - t0 > LIVE_S) return 0;
 	}
-	return 0;
 }
 
 int main(int argc, char **argv) {
@@ -143,7 +163,7 @@ int main(int argc, char **argv) {
 			// an active source: activated, installed by the first invoke and back at rest before anybody touches it; the READY
 			// mark (a = dq_state, b = ds_pending_data at that moment) is where the global replay on Model/SrcLane.v starts
 			dispatch_activate(s->ds);
-			for (int w = 0; w < 20000 && !(s->ds->ds_is_installed && at_rest(s) && !(rd_state(s) >> 55)); w++) usleep(100);
+			(void)wait_progress(s, 2);
 			dv_user(DVX_READY, 3 * i, rd_state(s), rd_pending(s));
 		}
 		pthread_t th[MAXT + 1]; targ_t ta[MAXT + 1];
@@ -158,14 +178,14 @@ int main(int argc, char **argv) {
 		for (int k = 0; k <= n; k++) pthread_join(th[k], NULL);
 		pthread_barrier_destroy(&bar);
 		// everything merged so far must get delivered without any further call
-		int ok1 = wait_delivered(s, 0);
+		int ok1 = wait_progress(s, 0);
 		uint64_t p1 = rd_pending(s), st1 = rd_state(s);
 		// a final non-zero merge on the idle source is delivered (and, for REPLACE, is the last value delivered)
 		s->sentinel = s->kind == 0 ? 1 : s->kind == 1 ? (1ull << 63) : 0xABCDEF0000000001ull + (uint64_t)i;
 		dv_user(DVU_CALL, 3 * i, s->sentinel, 0);
 		dispatch_source_merge_data(s->ds, (uintptr_t)s->sentinel);
 		dv_user(DVU_RET, 3 * i, 0, 0);
-		int ok2 = wait_delivered(s, 1);
+		int ok2 = wait_progress(s, 1);
 		printf("Q %d reentered=%d stuck1=%d stuck2=%d pending=%" PRIu64 " state=%" PRIu64 " handler_calls=%ld sentinel=%" PRIu64
 				" pending2=%" PRIu64 " state2=%" PRIu64 " last=%" PRIu64 "\n", i, atomic_load(&s->reentered), !ok1, !ok2, p1, st1,
 				atomic_load(&s->calls), s->sentinel, rd_pending(s), rd_state(s), atomic_load(&s->lastdata));
